@@ -88,7 +88,13 @@ macro_rules! impl_default_read_codes {
         {
             #[inline(always)]
             fn read_delta(&mut self) -> Result<u64, Self::Error> {
-                self.read_delta_param::<false, true>()
+                // A peek is guaranteed to return just WR::Word::BITS bits:
+                // with smaller words the γ table cannot be used
+                if WR::Word::BITS >= gamma_tables::READ_BITS {
+                    self.read_delta_param::<false, true>()
+                } else {
+                    self.read_delta_param::<false, false>()
+                }
             }
         }
 
@@ -105,7 +111,13 @@ macro_rules! impl_default_read_codes {
 
             #[inline(always)]
             fn read_zeta3(&mut self) -> Result<u64, Self::Error> {
-                self.read_zeta3_param::<true>()
+                // A peek is guaranteed to return just WR::Word::BITS bits:
+                // with smaller words the ζ₃ table cannot be used
+                if WR::Word::BITS >= zeta_tables::READ_BITS {
+                    self.read_zeta3_param::<true>()
+                } else {
+                    self.read_zeta3_param::<false>()
+                }
             }
         }
 
